@@ -283,6 +283,7 @@ func genShape(rt *rapid.T) (c Case) {
 	}
 	if rapid.IntRange(0, 2).Draw(rt, "rest") == 0 {
 		c.Rest = take()
+		c.Body = rapid.IntRange(0, 3).Draw(rt, "body-for-rest") == 0
 	}
 	nkey := rapid.IntRange(0, 3).Draw(rt, "nkey")
 	for i := 0; i < nkey; i++ {
@@ -441,7 +442,7 @@ func gridShapes(all bool, yield func(Case) bool) {
 	for nreq := 0; nreq <= 3; nreq++ {
 		for nopt := 0; nopt <= 2; nopt++ {
 			for _, od := range patterns(nopt) {
-				for rest := 0; rest <= 1; rest++ {
+				for rest := 0; rest <= 2; rest++ { // 2: the rest parameter after &body
 					for nkey := 0; nkey <= 3; nkey++ {
 						for _, kd := range patterns(nkey) {
 							for naux := 0; naux <= 1; naux++ {
@@ -456,8 +457,9 @@ func gridShapes(all bool, yield func(Case) bool) {
 									}
 									c.Opt = append(c.Opt, p)
 								}
-								if rest == 1 {
+								if rest >= 1 {
 									c.Rest = "more"
+									c.Body = rest == 2
 								}
 								for i := 0; i < nkey; i++ {
 									p := Param{Name: "k" + strconv.Itoa(i)}
